@@ -1953,9 +1953,12 @@ class Cluster(object):
             raise
         else:
             if not have_future:
+                # no pool to wait for (no session, or the host is ignored)
                 with host.lock:
                     host.set_up()
                     host._currently_handling_node_up = False
+                for listener in self.listeners:
+                    listener.on_up(host)
 
         # for testing purposes
         return futures
